@@ -271,21 +271,28 @@ func prepareQuery(q *Query) {
 	}
 	// loop variables (havocked at a loop header) are the positions a loop body talks about
 	{
+		n := 0
+		addLoopVars := func(c *sigCollector, limit int) {
+			for _, name := range sortedKeys(c.vars) {
+				if c.vars[name] == SInt && strings.HasPrefix(name, "loop") && n < limit {
+					v := Var(name, SInt)
+					if !seenC[v.String()] {
+						seenC[v.String()] = true
+						cands[SInt] = append(cands[SInt], v, Add(v, IntLit(1)))
+						n++
+					}
+				}
+			}
+		}
+		// the goal's own loop variables first (the loop being reasoned about), then those of the hypotheses
+		cg := newSigCollector()
+		cg.walk(q.Goal)
+		addLoopVars(cg, 4)
 		c := newSigCollector()
 		for _, h := range q.Hyps {
 			c.walk(h)
 		}
-		n := 0
-		for _, name := range sortedKeys(c.vars) {
-			if c.vars[name] == SInt && strings.HasPrefix(name, "loop") && n < 4 {
-				v := Var(name, SInt)
-				if !seenC[v.String()] {
-					seenC[v.String()] = true
-					cands[SInt] = append(cands[SInt], v, Add(v, IntLit(1)))
-					n++
-				}
-			}
-		}
+		addLoopVars(c, 4)
 	}
 	if os.Getenv("VGO_DEBUG_INST") != "" {
 		fmt.Fprintln(os.Stderr, "INST", q.Name, len(sks), cands[SInt])
